@@ -115,6 +115,9 @@ func runC12(cs *vrt.Case) {
 }
 
 func runC12One(cs *vrt.Case) {
+	if cs.Idx%19 == 7 {
+		c12Identity(cs, cs.Rng)
+	}
 	op := c12Ops[cs.Idx%len(c12Ops)]
 	w := c12Widths[(cs.Idx/len(c12Ops))%len(c12Widths)]
 	signed := (cs.Idx/(len(c12Ops)*len(c12Widths)))%2 == 0
@@ -427,4 +430,108 @@ func firstWords(s string, n int) string {
 		f = f[:n]
 	}
 	return strings.Join(f, " ")
+}
+
+// c12Identity: constants that agree in their low 32 bits, or are each
+// other's sign extension from 32 bits, inside ONE program next to a folded
+// expression whose value is one of them. A constant is known to the rest of
+// the compiler by its name; two values under one name share wires. The folded
+// program, its run-time twin and plain arithmetic must agree on every output.
+func c12Identity(cs *vrt.Case, r *vrt.Rng) {
+	one := big.NewInt(1)
+	for trial := 0; trial < 6; trial++ {
+		w := vrt.Pick(r, []int{64, 64, 96, 128})
+		T := fmt.Sprintf("uint%d", w)
+		v0 := new(big.Int).Add(new(big.Int).Lsh(one, 31), r.Big(31))
+		switch r.Intn(4) {
+		case 0:
+			v0 = big.NewInt(0xffffffff)
+		case 1:
+			v0 = big.NewInt(0x80000000)
+		}
+		var W *big.Int
+		twin := r.Intn(4)
+		switch twin {
+		case 0: // sign extension of v0 from 32 to 64 bits
+			W = new(big.Int).Or(v0, new(big.Int).Lsh(big.NewInt(0xffffffff), 32))
+		case 1:
+			W = new(big.Int).Add(v0, new(big.Int).Lsh(one, 32))
+		case 2:
+			W = new(big.Int).Or(v0, new(big.Int).Lsh(one, 63))
+		default:
+			W = new(big.Int).Or(v0, new(big.Int).Lsh(r.Big(32), 32))
+		}
+		var a, b *big.Int
+		op := vrt.Pick(r, []string{"+", "|", "^"})
+		switch op {
+		case "+":
+			b = big.NewInt(int64(r.Range(1, 1000)))
+			a = new(big.Int).Sub(v0, b)
+		case "|":
+			a, b = new(big.Int).And(v0, big.NewInt(0xffff0000)), new(big.Int).And(v0, big.NewInt(0x0000ffff))
+		default:
+			b = r.Big(32)
+			a = new(big.Int).Xor(v0, b)
+		}
+		wFirst := r.Bool()
+		body := func(expr string) string {
+			decl := []string{"\tv := " + expr + "\n", fmt.Sprintf("\tw := %s(%s)\n", T, W)}
+			ret := "\treturn x ^ v, x + w\n"
+			if wFirst {
+				decl[0], decl[1] = decl[1], decl[0]
+				ret = "\treturn x + w, x ^ v\n"
+			}
+			return decl[0] + decl[1] + ret
+		}
+		pc := fmt.Sprintf("package main\n\nfunc main(x %s, y uint8) (%s, %s) {\n%s}\n", T, T, T, body(fmt.Sprintf("%s(%s) %s %s(%s)", T, a, op, T, b)))
+		pr := fmt.Sprintf("package main\n\nfunc main(x %s, y uint8, a %s, b %s) (%s, %s) {\n%s}\n", T, T, T, T, T, body("a "+op+" b"))
+		desc := map[string]any{"P_const": pc, "P_run": pr, "a": a.String(), "b": b.String(), "folded_value": v0.Text(16), "other_constant": W.Text(16)}
+		cs.SetSample(desc)
+		cc, _, errC, panC := compileWithSSA(pc, nil, nil)
+		cr, _, errR, panR := compileWithSSA(pr, nil, nil)
+		if panC != nil || panR != nil {
+			pan := panC
+			if pan == nil {
+				pan = panR
+			}
+			if pan.InMPC {
+				cs.Violate("C12|compiler-panic|constant-identity|"+trimNum(firstWords(pan.Value, 6)), "compiler crashed: "+pan.Value, map[string]any{"case": desc, "stack": pan.Stack})
+			} else {
+				cs.Inconc("harness panic: " + pan.Value)
+			}
+			continue
+		}
+		if errC != nil || errR != nil {
+			cs.Count("rejected", 1)
+			continue
+		}
+		mod := new(big.Int).Lsh(one, uint(w))
+		for _, x := range c12Values(false, w, 4) {
+			inC := new(big.Int).Or(x, new(big.Int).Lsh(big.NewInt(0x5a), uint(w)))
+			inR := new(big.Int).Set(inC)
+			inR.Or(inR, new(big.Int).Lsh(a, uint(w+8)))
+			inR.Or(inR, new(big.Int).Lsh(b, uint(2*w+8)))
+			oc, e1 := refc.EvalFlat(cc, []*big.Int{inC})
+			or, e2 := refc.EvalFlat(cr, []*big.Int{inR})
+			if e1 != nil || e2 != nil {
+				cs.Inconc(fmt.Sprint(e1, e2))
+				return
+			}
+			cs.Evals++
+			xv := new(big.Int).Xor(x, v0)
+			xw := new(big.Int).Mod(new(big.Int).Add(x, W), mod)
+			truth := new(big.Int).Or(xv, new(big.Int).Lsh(xw, uint(w)))
+			if wFirst {
+				truth = new(big.Int).Or(xw, new(big.Int).Lsh(xv, uint(w)))
+			}
+			if oc[0].Cmp(or[0]) != 0 || oc[0].Cmp(truth) != 0 {
+				cs.Violate("C12|constant-identity|"+[]string{"sign-extension-twin", "plus-2^32", "bit-63", "other-high-half"}[twin],
+					fmt.Sprintf("a program holding the folded value %s and the constant %s: folded form gives %s, run-time form %s, arithmetic %s (x=%s)", v0.Text(16), W.Text(16), oc[0].Text(16), or[0].Text(16), truth.Text(16), x.Text(16)),
+					map[string]any{"case": desc})
+				break
+			}
+		}
+		cs.Count("constant_identity_probes", 1)
+		cs.Key("identity", T, v0.Text(16), W.Text(16), op, fmt.Sprint(wFirst))
+	}
 }
